@@ -37,9 +37,6 @@ def dataSlot (k : String) : Nat := if k = "CONV_2D_TRANSPOSE" then 2 else 0
 def slotRole (k : String) (i : Nat) : Nat :=
   if i ∈ indexSlots k then 1 else if biasSlot k = some i then 2 else 0
 
-/-- operators whose results take over the parameters of the data operand (`sameAsInput`) -/
-def passThroughOps : List String := ["RESHAPE", "TRANSPOSE", "AVERAGE_POOL_2D", "STRIDED_SLICE", "SPLIT"]
-
 /-- operator `op` of model `m` is named `k` in the quantizer's operator table -/
 def OpNamed (m : Graph.Model) (op : Graph.Op) (k : String) : Prop :=
   ∃ code, m.opcodes[op.code]? = some code ∧ Mat.opNameOfCode code = some k
